@@ -89,6 +89,14 @@ func (r *RecvA) TailPtr(a string, p *RPCParams) error {
 	r.rec(fmt.Sprintf("TailPtr(%q,%v)", a, p != nil))
 	return nil
 }
+
+// names that start with more than one capital: only the first letter is lower-cased ("iD", "uRLFor", "x")
+func (r *RecvA) ID() error { r.rec("ID()"); return nil }
+func (r *RecvA) URLFor(s string) (string, error) {
+	r.rec(fmt.Sprintf("URLFor(%q)", s))
+	return s, nil
+}
+func (r *RecvA) X(n int64) error      { r.rec(fmt.Sprintf("X(%d)", n)); return nil }
 func (r *RecvA) Fails(s string) error { r.rec("Fails"); return fmt.Errorf("boom %s", s) }
 func (r *RecvA) hiddenMethod(s string) error {
 	r.rec("hiddenMethod")
@@ -112,6 +120,9 @@ var recvATable = []c16Method{
 	{"Three", []string{"string", "int", "bool"}, true},
 	{"TailPtr", []string{"string", "ptr"}, true},
 	{"Fails", []string{"string"}, true},
+	{"ID", nil, true},
+	{"URLFor", []string{"string"}, true},
+	{"X", []string{"int"}, true},
 	{"hiddenMethod", []string{"string"}, false},
 	{"HiddenParam", []string{"struct"}, false},
 }
